@@ -22,7 +22,7 @@ NSHARDS = 16
 
 def shards(tier, seed):
     return [{'name': f's{k}', 'k': k, 'cases': 14000 if tier == 'quick' else 600000,
-             'budget_s': 45 if tier == 'quick' else 500} for k in range(NSHARDS)]
+             'budget_s': 45 if tier == 'quick' else 500} for k in range(NSHARDS)] + [{'name': 'repotests', 'kind': 'repotests', 'budget_s': 300}]
 
 
 def grammar_patterns():
@@ -173,6 +173,10 @@ def run(spec, R):
     env.install()
     contracts.bind(R)
     contracts.install_unification_contracts()
+    if spec.get('kind') == 'repotests':
+        from vlib import repotests
+        repotests.run_repo_tests(R, ['tests/test_unification.py', 'tests/grammar'], lambda: None)
+        return
     rng = shard_rng(ID, spec['seed'], spec['name'])
     pats = [(refcat.ref_parse(a), refcat.ref_parse(b)) for a, b in grammar_patterns()]
     R.extra['grammar_pattern_pairs'] = len(pats)
